@@ -177,6 +177,18 @@ impl<'a> Gen<'a> {
             let first = ps[0];
             ps.push(first);
             self.stats.hit("ring.closed");
+        } else if d != Dim::Xy && self.rng.chance(1, 3) && !ps.is_empty() {
+            // back at the first vertex in X and Y only: Z or M differ, so the ring is NOT closed
+            let mut last = ps[0];
+            if d == Dim::Xyzm && self.rng.chance(1, 2) {
+                last.z = bits(f(last.z) + 1.0);
+            } else {
+                last.m = bits(f(last.m) + 16.0);
+            }
+            if last != ps[0] {
+                ps.push(last);
+                self.stats.hit("ring.closed-in-xy-only");
+            }
         } else {
             self.stats.hit("ring.open");
         }
